@@ -104,6 +104,9 @@ func parseFloat(s string) float64 {
 		return 0
 	case "-0":
 		return math.Copysign(0, -1)
+	case "-NaN":
+		// a NaN whose sign bit is set (strconv writes no sign for it)
+		return math.Copysign(math.NaN(), -1)
 	}
 	f, err := strconv.ParseFloat(s, 64)
 	if err != nil {
@@ -579,6 +582,18 @@ func (b *builder) build1(v *Val) interface{} {
 			m[StructKey{A: b.build(v.Keys[i]), B: int(v.Keys[i+1].int(in))}] = b.sub(v, i/2)
 		}
 		return m
+	case "structsv":
+		return StructSV{Node: SVStringer{S: "n7"}, secret: v.str(in), ID: "id", n: int(v.int(in))}
+	case "errgostr":
+		return ErrGoStr{S: v.str(in)}
+	case "getvalue":
+		return Setting{Name: v.str(in), V: int(v.int(in))}
+	case "nilgetvalue":
+		return (*SettingP)(nil)
+	case "mup":
+		return map[unsafe.Pointer]int{unsafe.Pointer(&mupA): 1, unsafe.Pointer(&mupB): int(v.int(in)), unsafe.Pointer(&mupC): 3}
+	case "structm":
+		return StructM{m: map[interface{}]int{1: 1, "a": int(v.int(in)), 2.5: 3, true: 4}, M: map[interface{}]string{"k": v.str(in), 2: "two", NStr("n"): "three"}}
 	case "ystringer":
 		return YieldStringer{S: v.str(in), N: int(v.I)}
 	case "tagstruct":
